@@ -68,6 +68,7 @@ class ThreadSim:
         self.flags = [dict() for _ in range(nthreads)]
         self.pairs = collections.Counter()
         self.scans = 0
+        self.hold_until = -1
         # PCT state
         st = self.strategy
         if st['kind'] == 'pct' and rng is not None:
@@ -104,7 +105,14 @@ class ThreadSim:
                 return max(others, key=lambda t: self.prio[t])
             return rng.choice(others)
         if k == 'random':
+            # after a switch the new thread runs a burst of steps undisturbed: one thread parked at an
+            # arbitrary line while another makes real progress is the shape of check-then-act races
+            if step < self.hold_until:
+                return None
             if rng.random() < self.strategy['p']:
+                burst = self.strategy.get('burst', 0)
+                if burst:
+                    self.hold_until = step + 1 + rng.randrange(burst)
                 return rng.choice(others)
             return None
         if k == 'rr':
@@ -280,7 +288,7 @@ def gen_strategy(rng, tier, est_steps):
             p = rng.choice([0.003, 0.01, 0.03, 0.1, 0.3])
         else:
             p = rng.choice([0.03, 0.1, 0.2, 0.4])
-        return {'kind': 'random', 'p': p}
+        return {'kind': 'random', 'p': p, 'burst': rng.choice([0, 0, 10, 100, 1000] if tier == 'thorough' else [0, 0, 5, 30])}
     if r < 0.8:
         return {'kind': 'pct', 'd': rng.choice([1, 2, 3]), 'est': est_steps}
     return {'kind': 'rr', 'q': rng.choice([1, 2, 3, 5, 8, 13, 40])}
